@@ -550,7 +550,9 @@ impl InnerLocustDB {
             let columns: Vec<_> = partition
                 .clone_column_handles()
                 .into_iter()
-                .map(|c| c.try_get().as_ref().unwrap().clone())
+                // A concurrent query may already have registered placeholder handles for columns
+                // this partition does not contain; those hold no data and are not persisted.
+                .filter_map(|c| c.try_get().as_ref().cloned())
                 .collect();
             let (metadata, subpartitions) = subpartition(&self.opts, columns);
             let mut subpartitions_by_last_column = BTreeMap::new();
